@@ -4,20 +4,22 @@
 #ifndef P2BIN_CONTRACTS_H
 #define P2BIN_CONTRACTS_H
 #include "stubs/gfile.h"
-extern long g_src0, g_tgt0, g_cplen;
+extern long g_src0, g_tgt0, g_cplen, g_src_end, g_tgt_end;
+extern int  g_wmatch;
 
-/* copy loop (byte mode ALL): what has been copied is in the target, byte for byte (witness) */
+/* copy loop (byte mode ALL): what has been copied is in the target, byte for byte (witness).
+ * g_src_end / g_tgt_end = g_src0 / g_tgt0 + g_cplen and g_wmatch = "the two witness offsets denote the same byte of
+ * the copied part" are computed once by the harness, so that the step obligation is free of the window arithmetic. */
 #define VERIF_LOOP_p2bin_copy                                                                   \
     __CPROVER_assigns(ErgLen, TransLen, ResLen, ErgStart, SumLen, gf_cell_addr, gf_cell_val, gf_cell_valid, gf[0].pos, gf[0].n_read_calls, gf[0].io_error, \
                       gf[1].pos, gf[1].len, gf[1].w_val, gf[1].n_write_calls, gf[1].bytes_written, gf[1].io_error, verif_errno) \
     __CPROVER_loop_invariant((long)ErgLen <= g_cplen)                                            \
-    __CPROVER_loop_invariant(gf[0].pos == g_src0 + g_cplen - (long)ErgLen)                       \
-    __CPROVER_loop_invariant(gf[1].pos == g_tgt0 + g_cplen - (long)ErgLen)                       \
+    __CPROVER_loop_invariant(gf[0].pos == g_src_end - (long)ErgLen)                              \
+    __CPROVER_loop_invariant(gf[1].pos == g_tgt_end - (long)ErgLen)                              \
     __CPROVER_loop_invariant(gf[1].len == __CPROVER_loop_entry(gf[1].len) || (gf[1].len == gf[1].pos && gf[1].pos > __CPROVER_loop_entry(gf[1].len))) \
     /* bytes of the target outside the part written so far keep their value */                   \
     __CPROVER_loop_invariant((gf[1].w_off >= g_tgt0 && gf[1].w_off < gf[1].pos) || gf[1].w_val == __CPROVER_loop_entry(gf[1].w_val)) \
-    __CPROVER_loop_invariant(!(gf[1].w_off >= g_tgt0 && gf[1].w_off < gf[1].pos &&              \
-                               gf[0].w_off - g_src0 == gf[1].w_off - g_tgt0) || gf[1].w_val == gf[0].w_val) \
+    __CPROVER_loop_invariant(!(gf[1].w_off >= g_tgt0 && gf[1].w_off < gf[1].pos && g_wmatch) || gf[1].w_val == gf[0].w_val) \
     __CPROVER_decreases(ErgLen)
 /* lane-selection loop inside the copy loop (-m EVEN/ODD/BYTEn/WORDn): compaction in the transfer
  * buffer; here only its frame and bounds (it is not entered in byte mode ALL) */
